@@ -28,6 +28,9 @@ def base_sets(tier):
             out.append([dict(pf=pf, nx=nx, ny=ny, side=side, off=None)])
     out.append([dict(pf="swept", nx=3, ny=5, side="full", off=None), dict(pf="rect", nx=2, ny=3, side="full", off=[5.0, 0.3, 0.7], span=3.0, chord=0.8)])
     out.append([dict(pf="twdi", nx=2, ny=3, side="left", off=None), dict(pf="rect", nx=3, ny=2, side="left", off=[5.0, 0.0, 0.7], span=3.0, chord=0.8)])
+    # a down-loaded tail in the wing's downwash (its induced drag is negative at positive alpha) and an up-loaded canard-like one
+    out.append([dict(pf="swept", nx=2, ny=3, side="left", off=None), dict(pf="rect", nx=2, ny=3, side="left", off=[4.0, 0.0, 0.3], span=3.0, chord=0.8, pitch=-10.0)])
+    out.append([dict(pf="swept", nx=3, ny=5, side="full", off=None), dict(pf="rect", nx=2, ny=3, side="full", off=[4.0, 0.0, 0.3], span=3.0, chord=0.8, pitch=-10.0)])
     # lists with different symmetry settings (half-model wing + full-span tail, and the reverse)
     out.append([dict(pf="twdi", nx=2, ny=3, side="left", off=None), dict(pf="rect", nx=3, ny=3, side="full", off=[5.0, 0.0, 0.7], span=3.0, chord=0.8)])
     out.append([dict(pf="swept", nx=3, ny=5, side="full", off=None), dict(pf="rect", nx=2, ny=2, side="left", off=[5.0, 0.0, 0.7], span=3.0, chord=0.8)])
